@@ -1,8 +1,9 @@
 (* C28 — the wheel's pure-Python helpers agree with the Rust core.
-   Only statements here; every proof is `exact <lemma>` from Proofs/PyCodecProofs.v.
+   Only statements here; every proof is `exact <lemma>` from Proofs/PyCodecProofs.v, PyIntProofs.v,
+   CurryRun.v.
 
    Full statement = C28_serializer /\ C28_decoder /\ C28_int_from_bytes /\ C28_int_to_bytes
-     /\ C28_curry_hash /\ C28_uncurry_curry /\ C28_run, for all byte strings, trees, integers,
+     /\ C28_curry_hash /\ C28_uncurry_curry /\ C28_curried_run, for all byte strings, trees, integers,
      modules and argument lists.
 
    Models: Model/PyCodec.v transcribes wheel/python/clvm_rs/ser.py (sexp_to_byte_iterator /
@@ -19,7 +20,9 @@
                         yields the same tree and the same remaining input; it raises only
                         ValueError("bad encoding" / "blob too large"), never IndexError
      C28_decoder_current  the same for the decoder the translator found in ser.py on this run,
-                        under the premise that it has that check (false today: F4)
+                        under the premise that it has that check
+     C28_decoder        ... and that premise holds for the source as it is (this theorem stops compiling
+                        if the check disappears from ser.py; the search then produces F4's input)
      C28_decoder_known_class  the UNREPAIRED decoder already agrees on every byte string that
                         contains no byte 0xfe
      C28_refuted        (finding F4) the unrepaired decoder accepts fe 00 00 00 00 00 01 61
@@ -30,16 +33,36 @@
      C28_curry_hash     curry_hash (treehash m) (map treehash args) = treehash (curry m args), for
                         every function H with 32-byte outputs (the Python code checks the length)
      C28_uncurry_curry  uncurry (curry m args) = (m, args)
-   NOT proved here (so the property is claimed below proof level):
-     C28_run : running `curry m args` on env = running m on (args ++ env), same result (cost
-               differs): needs the interpreter model; decided on the implementation (the wheel's
-               run API on both programs, and the Rust run_program on the second).
+     C28_curried_run    (interpreter: Model/Machine.v = run_program.rs, for EVERY dialect record whose
+                        quote/apply keywords are 1/2, whose softfork keyword is not 4 and whose operator
+                        4 is cons at CONS_COST - C28_curry_dialects: ChiaDialect under every flag word,
+                        its extension-hiding variant and the RuntimeDialect are such) for every module m,
+                        argument list args = [a1..an], environment e and every outcome R (a cost and a
+                        value, or an error) other than the model's fuel exhaustion:
+                          run_program (curry m args) e, with K more budget, has outcome R with K added
+                          to the cost  <=>  run_program m (a1 a2 ... an . e) has outcome R
+                        where K = curry_cost n = OP_COST + QUOTE_COST + APPLY_COST + 44 + n * (OP_COST +
+                        QUOTE_COST + CONS_COST) = 155 + 71 n (44 = the path lookup of `1`;
+                        C28_curry_cost). Same value, same error kind; the budgets are max_cost
+                        arguments after run_program's `0 = unlimited = Cost::MAX` reading ([budget]),
+                        so with max_cost' = 0 the right-hand run has max_cost = Cost::MAX - K.
+     C28_curried_run_big  the equation behind it on the big-step evaluator (equivalent to run_program
+                        for all those outcomes: C11_bigstep, C11_outcomes): with fuel f > n + 1,
+                        run_big (B + K) (S f) (curry m args) e = shift K (run_big B f m (args . e)).
+     C28_cost_shift     the lemma that makes the cost difference exact: the evaluator commutes with
+                        shifting the cost counter, the budget and the expected costs of all open guards
+                        by K (every dialect, every program).
+   What "equals" cannot mean: with the SAME finite budget the two runs differ when the budget lies
+   within K of the module's cost (the curried run fails with CostExceeded); C28_run_witness shows it.
+   F4 (C28_refuted) is about the decoder WITHOUT the size-field check; the source has the check today
+   (repaired in /repo), which is what C28_decoder states for the decoder the translator reads.
    Modelling conventions that a reader must know: `Program != bytes` (a tree-hash comparison in
    Python) is structural inequality in the model (sha256 collision-freeness is not assumed by any
    theorem, it is assumed by this reading of `!=`); the `_cached_serialization` shortcut of
    sexp_to_byte_iterator is not modelled (see the check: CLVMTree hands out the bytes it was
    parsed from, which are not canonical when the input was not). *)
-From Clvm Require Import Model.PyCodec Proofs.PyCodecProofs Proofs.PyIntProofs.
+From Clvm Require Import Model.PyCodec Model.Machine Model.Dialect Model.BigStep Proofs.PyCodecProofs
+  Proofs.PyIntProofs Proofs.CurryRun.
 Open Scope N_scope.
 
 Theorem C28_serializer : forall t,
@@ -64,6 +87,10 @@ Proof. intros bs H. apply py_decoder_agrees. left. split; [reflexivity|exact H].
 Theorem C28_decoder_current : py_current_limit = Some 6 -> forall bs, wf_bytes bs = true ->
   agrees (py_sexp_from_stream py_current_limit bs) (node_from_stream bs).
 Proof. intros E bs H. rewrite E. apply py_decoder_agrees. left. split; [reflexivity|exact H]. Qed.
+
+Theorem C28_decoder : forall bs, wf_bytes bs = true ->
+  agrees (py_sexp_from_stream py_current_limit bs) (node_from_stream bs).
+Proof. exact (C28_decoder_current eq_refl). Qed.
 
 Theorem C28_decoder_known_class : forall bs,
   forallb (fun b => (b <? 256) && negb (b =? 0xfe)) bs = true ->
@@ -91,6 +118,53 @@ Proof. exact py_curry_hash_spec. Qed.
 Theorem C28_uncurry_curry : forall m args, py_uncurry (py_curry m args) = PyOk (m, Some args).
 Proof. exact py_uncurry_curry. Qed.
 
+(* ------------------------------------------------------------------ the curried run *)
+Theorem C28_curried_run : forall d, curry_dialect d -> forall max_cost max_cost' m args e R,
+  budget max_cost' = budget max_cost + curry_cost (length args) -> R <> Err OutOfFuel ->
+  ((exists fuel, run_program d fuel (py_curry m args) e max_cost' = shift_res (curry_cost (length args)) R) <->
+   (exists fuel, run_program d fuel m (env_prepend args e) max_cost = R)).
+Proof. exact curry_run_program. Qed.
+
+Theorem C28_curried_run_big : forall d, curry_dialect d -> forall B m args e f, (length args + 1 < f)%nat ->
+  run_big d (B + curry_cost (length args)) (S f) (py_curry m args) e =
+  shift_res (curry_cost (length args)) (run_big d B f m (env_prepend args e)).
+Proof. exact curry_run_big. Qed.
+
+Theorem C28_cost_shift : forall d M K f gs cost p e,
+  eval d (M + K) f (shift_gs K gs) (cost + K) p e = shift_res K (eval d M f gs cost p e).
+Proof. exact eval_shift. Qed.
+
+Theorem C28_curry_dialects : forall P flags,
+  curry_dialect (chia_dialect P flags) /\ curry_dialect (hiding_dialect P flags) /\
+  curry_dialect (runtime_dialect P flags).
+Proof.
+  intros P flags. split; [apply chia_curry_dialect|]. split; [apply hiding_curry_dialect|apply runtime_curry_dialect].
+Qed.
+
+Theorem C28_curry_cost : forall n, curry_cost n = 155 + 71 * N.of_nat n.
+Proof. exact curry_cost_closed. Qed.
+
+(* non-vacuity of the curried run, by computation on ChiaDialect's model: m = (+ 2 5) = (16 2 5),
+   args = [3; 4], e = (10): the curried program costs 155 + 2 * 71 more and yields the same 7; a
+   module that raises (x) fails the same way curried; with the same tight budget (the module's own
+   cost) the curried run is out of budget, with K more it succeeds *)
+Example C28_run_witness : forall P,
+  let d := chia_dialect P (flags_of_N 0) in
+  let m := Cons (Atom [16]) (Cons (Atom [2]) (Cons (Atom [5]) nil_s)) in
+  let args := [Atom [3]; Atom [4]] in
+  let e := Cons (Atom [10]) nil_s in
+  env_prepend args e = Cons (Atom [3]) (Cons (Atom [4]) (Cons (Atom [10]) nil_s)) /\
+  run_program d 100 m (env_prepend args e) 0 = Ok (856, Atom [7]) /\
+  run_program d 100 (py_curry m args) e 0 = Ok (856 + 297, Atom [7]) /\
+  curry_cost 2 = 297 /\
+  run_program d 100 (Cons (Atom [8]) nil_s) (env_prepend args e) 0 = Err Raise /\
+  run_program d 100 (py_curry (Cons (Atom [8]) nil_s) args) e 0 = Err Raise /\
+  run_program d 100 m (env_prepend args e) 856 = Ok (856, Atom [7]) /\
+  run_program d 100 (py_curry m args) e 856 = Err CostExceeded /\
+  run_program d 100 (py_curry m args) e (856 + 297) = Ok (856 + 297, Atom [7]) /\
+  budget (856 + 297) = budget 856 + curry_cost (length args).
+Proof. intros P. vm_compute. repeat split. Qed.
+
 (* non-vacuity: the witness of F4 and its neighbours; a 6-byte size field is accepted by all three;
    the hash hypothesis is satisfiable; boundary integers *)
 Example C28_witness :
@@ -112,6 +186,7 @@ Proof. vm_compute. repeat split. Qed.
 Print Assumptions C28_serializer.
 Print Assumptions C28_decoder_fixed.
 Print Assumptions C28_decoder_current.
+Print Assumptions C28_decoder.
 Print Assumptions C28_decoder_known_class.
 Print Assumptions C28_refuted.
 Print Assumptions C28_int_from_bytes.
@@ -119,3 +194,9 @@ Print Assumptions C28_int_to_bytes.
 Print Assumptions C28_curry_hash.
 Print Assumptions C28_uncurry_curry.
 Print Assumptions C28_witness.
+Print Assumptions C28_curried_run.
+Print Assumptions C28_curried_run_big.
+Print Assumptions C28_cost_shift.
+Print Assumptions C28_curry_dialects.
+Print Assumptions C28_curry_cost.
+Print Assumptions C28_run_witness.
